@@ -21,7 +21,7 @@ RULE = ("areas drawn over the signed WGS-84 range (incl. |lat| up to 85 deg and 
         "(area, receiver position); non-trivial = the oracle's two projections agree and the point is outside the tolerance band.")
 ASSUMPTIONS = ["tolerance band max(1 m, 1 % of the semi-axis, disagreement between great-circle and equirectangular projection) around the border is excluded, as the property allows",
                "sender == source in the two-station runs (the implementation can only look up the source's LocTE for Annex D)"]
-REQUIRED_COUNTERS = ["F.judged_in", "F.judged_out", "D.deliveries_judged", "D.forward_judged", "D.size_judged"]
+REQUIRED_COUNTERS = ["F.judged_in", "F.judged_out", "D.deliveries_judged", "D.forward_judged", "D.size_judged", "F.history_evaluations", "D.sequence_deliveries_judged"]
 
 RADII = (0.0, 0.5, 0.9, 0.98, 1.02, 1.1, 2.0, 10.0)
 SHAPE_NAMES = ("circle", "rect", "elip")
@@ -136,6 +136,29 @@ def run_f(spec, res):
         run_f_case(ar, kind, pts, res)
         for p in pts:
             res.case((tuple(sorted(ar.items())), p[0], p[1]))
+        # history class: the same long-lived router evaluates a family of areas that share the centre at ONE receiver
+        # position, one parameter changing at a time (azimuth, semi-axes, shape, GBC/GAC) and back again -- a verdict must
+        # depend on the arguments only, never on what was evaluated before
+        if pts and i % 2 == 0:
+            q = rng.choice(pts)
+            fam = [ar]
+            for _ in range(rng.randrange(3, 7)):
+                v = dict(rng.choice(fam))
+                what = rng.choice(("angle", "angle", "angle", "ab", "shape", "a", "same"))
+                if what == "angle":
+                    v["angle"] = (v["angle"] + rng.choice((90, 90, 45, 37, 180, 270, 1))) % 360
+                elif what == "ab":
+                    v["a"], v["b"] = v["b"], v["a"]
+                elif what == "shape":
+                    v["shape"] = (v["shape"] + rng.choice((1, 2))) % 3
+                elif what == "a":
+                    v["a"] = max(1, min(65535, int(v["a"] * rng.choice((0.5, 2, 0.9, 1.1)))))
+                fam.append(v)
+            fam.append(ar)
+            for v in fam[1:]:
+                run_f_case(v, rng.choice(("gbc", "gac")), [q], res)
+                res.case((tuple(sorted(v.items())), q[0], q[1], "hist"))
+                res.count("F.history_evaluations")
         if i == 0:
             res.sample({"part": "F", "area": ar, "kind": kind, "receivers": pts[:4]})
 
@@ -245,6 +268,86 @@ def run_d_case(c, res):
             res.violation("C07:forwarded-more-than-once", f"{len(r_tx)} transmissions", c)
 
 
+def run_dseq_case(c, res):
+    """Several geo packets in a row to ONE long-lived receiver: areas sharing the centre and differing in azimuth, semi-axes,
+    shape or transport (and a receiver that may move in between).  Each packet is judged on its own."""
+    from vf.gnharness import World, gn_request, area, mid_of
+    from flexstack.geonet.mib import AreaForwardingAlgorithm
+    from flexstack.geonet.service_access_point import CommonNH
+    with World() as w:
+        S = w.add("S", mid_of(1), lat=c["s_pos"][0], lon=c["s_pos"][1], pai=bool(c["s_pai"]), ports=(2001,),
+                  mib_over={"itsGnAreaForwardingAlgorithm": AreaForwardingAlgorithm.SIMPLE, "itsGnMaxGeoAreaSize": 100000})
+        R = w.add("R", mid_of(2), lat=c["r_pos"][0], lon=c["r_pos"][1], ports=(2001,),
+                  mib_over={"itsGnAreaForwardingAlgorithm": AreaForwardingAlgorithm(c["r_alg"]), "itsGnMaxGeoAreaSize": 100000})
+        pos = list(c["r_pos"])
+        for k, st in enumerate(c["steps"]):
+            if st.get("move"):
+                pos = list(st["move"])
+                R.set_position(pos[0], pos[1])
+            ar = st["area"]
+            payload = b"\x07\xd1\x00\x00" + b"seq%d" % k
+            n0 = len(R.gn_ind)
+            try:
+                S.router.gn_data_request(gn_request(st["kind"], payload, shape=SHAPE_NAMES[ar["shape"]], ar=area(ar["lat"], ar["lon"], ar["a"], ar["b"], ar["angle"]),
+                                                    nh=CommonNH.BTP_B, hop=c["hop"]))
+                w.settle()
+                w.clock.advance(0.3)
+                w.settle()
+            except Exception as e:  # noqa
+                res.violation(f"C07:request-or-reception-raises-{type(e).__name__}", f"{e!r}", c)
+                return
+            if w.ether.errors:
+                res.violation(f"C07:request-or-reception-raises-{type(w.ether.errors[0][3]).__name__}", f"{w.ether.errors[0][3]!r}", c)
+                return
+            rv = oracle(ar, *pos)
+            got = [ind for (_, ind) in R.gn_ind[n0:] if bytes(ind.data) == payload]
+            if rv == "band":
+                res.count("D.band_unjudged")
+                continue
+            res.count("D.sequence_deliveries_judged")
+            res.count("D.deliveries_judged")
+            m = mech(ar, *pos)
+            first = "first-packet" if k == 0 else "later-packet-of-a-sequence"
+            if rv == "in" and len(got) != 1:
+                res.violation(f"C07:inside-receiver-not-delivered[{st['kind']}][{SHAPE_NAMES[ar['shape']]}]{m}[{first}]" if not got else f"C07:delivered-more-than-once[{st['kind']}]",
+                              f"packet {k} of the sequence: receiver inside, indications {len(got)}", {**c, "_step": k})
+            if rv == "out" and got:
+                res.violation(f"C07:outside-receiver-delivered[{st['kind']}][{SHAPE_NAMES[ar['shape']]}]{m}[{first}]",
+                              f"packet {k} of the sequence: receiver outside, indications {len(got)}", {**c, "_step": k})
+
+
+def gen_dseq(rng):
+    ar = gen_area(rng)
+    if ar["shape"] == G.CIRCLE or ar["a"] == ar["b"]:
+        ar["shape"] = rng.choice((1, 2))
+        ar["b"] = max(1, ar["a"] // rng.choice((2, 5, 10)))
+    ar["a"] = min(ar["a"], 3000)
+    ar["b"] = min(ar["b"], 3000)
+    phi = rng.choice((0.0, math.pi / 2, rng.uniform(0, 2 * math.pi)))
+    rp = place(ar, phi, rng.choice((0.5, 0.9, 1.1, 2.0)))
+    sp = place(ar, rng.uniform(0, 2 * math.pi), rng.choice((0.0, 0.3, 1.5)))
+    if rp is None or sp is None:
+        return None
+    steps = []
+    cur = dict(ar)
+    for k in range(rng.randrange(2, 5)):
+        st = {"area": dict(cur), "kind": rng.choice(("gbc", "gac"))}
+        if k and rng.random() < 0.2:
+            mv = place(ar, rng.uniform(0, 2 * math.pi), rng.choice((0.5, 0.9, 1.1, 2.0)))
+            if mv:
+                st["move"] = list(mv)
+        steps.append(st)
+        what = rng.choice(("angle", "angle", "angle", "ab", "shape", "same"))
+        cur = dict(cur)
+        if what == "angle":
+            cur["angle"] = (cur["angle"] + rng.choice((90, 90, 45, 37, 270))) % 360
+        elif what == "ab":
+            cur["a"], cur["b"] = cur["b"], cur["a"]
+        elif what == "shape":
+            cur["shape"] = (cur["shape"] + rng.choice((1, 2))) % 3
+    return {"part": "Dseq", "r_pos": list(rp), "s_pos": list(sp), "s_pai": rng.randrange(2), "hop": rng.choice((1, 2, 5)), "r_alg": rng.choice((1, 1, 2, 0)), "steps": steps}
+
+
 def gen_d(rng):
     ar = gen_area(rng)
     phi = rng.uniform(0, 2 * math.pi)
@@ -272,6 +375,11 @@ def run_d(spec, res):
         n += 1
         run_d_case(c, res)
         res.case(repr(c))
+        if n % 3 == 0:
+            cs = gen_dseq(rng)
+            if cs is not None:
+                run_dseq_case(cs, res)
+                res.case(repr(cs))
         if n == 1:
             res.sample(c)
 
@@ -294,5 +402,7 @@ def replay(case, res):
         from flexstack.geonet.mib import MIB
         run_f_case.router = Router(MIB())
         run_f_case(case["area"], case["kind"], [(case["rx"][0], case["rx"][1], case["rho"])], res)
+    elif case.get("part") == "Dseq":
+        run_dseq_case({k: v for k, v in case.items() if not k.startswith("_")}, res)
     else:
         run_d_case(case, res)
